@@ -189,6 +189,14 @@ class FreeEnergy(InterpolatableFunction):
         # unpacks this into a FreeEnergyValueType for easier use.
         # Hence you should NOT call this directly when evaluating free energy
 
+        # The minimisation works on a flat list of temperatures. Arrays with more axes
+        # (the stencil arrays of finite-difference derivatives) are handled point by
+        # point and get their shape back, with the values on an extra last axis.
+        temperature = np.asanyarray(temperature)
+        if temperature.ndim > 1:
+            flat = self._functionImplementation(temperature.ravel())
+            return flat.reshape(temperature.shape + (flat.shape[-1],))
+
         # Minimising potential. N.B. should already be real for this.
         phaseLocation, potentialAtMinimum = self.effectivePotential.findLocalMinimum(
             self.startingPhaseLocationGuess, temperature
